@@ -2,6 +2,8 @@ import RtcVerif.Model.C03Subproblem
 import RtcVerif.Model.C03Cert
 import RtcVerif.Proofs.C03Cert
 import RtcVerif.Proofs.C03Objective
+import RtcVerif.Model.C03Closures
+import RtcVerif.Proofs.C03Closures
 import Mathlib.Algebra.Order.Field.Rat
 import Mathlib.Tactic.Linarith
 import Mathlib.Tactic.Ring
@@ -94,6 +96,40 @@ example :
       ∧ documented true 3 [1/4, 3/4] val [g1] [g2] = 587/384
       ∧ g2.nActive true true 3 0 = 2 ∧ g2.nActive true true 3 1 = 1
       ∧ nObjectives true 3 val 0 [g1] [g2] = 3 := by
+  decide +kernel
+
+/-- **Closure level.**  The objective lists of a priority are lists of closures `o(problem, ensemble_member)`
+    (`closures`: one per non-critical goal, each evaluating ITS OWN goal, epsilon symbol and divisor for the member
+    it is called with).  Evaluated the way `_gp_n_objectives`, `_gp_objective` (once) and `_gp_path_objective`
+    (at every time step) evaluate them, they give the member objective of the theorems above — hence the documented
+    formula.  The generated module `Gen/GpObjectiveFunc.lean` proves on every run that the closures read from the
+    source are these. -/
+theorem C03_closures_objective (sbs : Bool) (T : Nat) (val : Val) (goals pathGoals : List Goal) (m : Nat) :
+    (let n := ((closures sbs false T val goals).flatMap (fun o => o m 0)).length
+              + ((closures sbs true T val pathGoals).flatMap (fun o => o m 0)).length
+     gpObjectiveCode sbs (fun o : Closure => o m 0) (closures sbs false T val goals) n
+      + ((List.range T).map fun i =>
+          gpObjectiveCode sbs (fun o : Closure => o m i) (closures sbs true T val pathGoals) n).sum)
+      = ((((indexed goals).filter (fun gj => !gj.1.critical)).map (docPoint val m)).sum
+          + (((indexed pathGoals).filter (fun gj => !gj.1.critical)).map (docPath sbs T val m)).sum)
+        / (if sbs then (nGoalsDoc goals pathGoals : Rat) else 1) := by
+  rw [← memberObjective_documented]
+  simp only [nObjectives_closures, gpObjectiveCode_closures]
+  rfl
+
+/-- non-vacuity: a critical goal contributes no closure, the two others evaluate their own data
+    (different weights, orders, nominals and positions `j`), per member and step -/
+example :
+    let g0 : Goal := { size := 1, weight := 1, order := 1, nominal := [1],
+                       tmin := .scalar (.fin 0), tmax := .scalar .nan, critical := true }
+    let g1 : Goal := { size := 2, weight := 3, order := 2, nominal := [1],
+                       tmin := .ts2 [[.fin 1, .nan], [.fin 2, .nan], [.nan, .nan]], tmax := .scalar .nan,
+                       critical := false }
+    let g2 : Goal := { size := 1, weight := 2, order := 1, nominal := [10],
+                       tmin := .scalar .nan, tmax := .scalar .nan, critical := false }
+    let val : Val := fun isPath j c m i => if isPath then (1 + 2 * j + c + 3 * m + 5 * i : Nat) else 0
+    (closures true true 3 val [g0, g1, g2]).map (fun o => o 1 2) = [[384, 867], [6 / 5]]
+      ∧ (closures true true 3 val [g0, g1, g2]).map (fun o => o 0 1) = [[96, 243], [2 / 3]] := by
   decide +kernel
 
 /-! ## Part 2 — optimality certificate -/
